@@ -35,7 +35,7 @@ EXTENDS Reply, Json
 
 CONSTANTS MaxDecl, Level, Variant, Emit
 
-VARIABLES sc,       \* the scenario [served, cell, others, sib]
+VARIABLES sc,       \* the scenario [served, cell, others, sib, ord, share]
           body,     \* what the server sends
           stage, sig, hdl, branch, outcome,
           acts      \* the actions taken so far (recorded: Judge reports them, the harness refuses a run in which an
@@ -128,7 +128,7 @@ Judge ==
   /\ PrintT("ACTS " \o ToJson(SetToSeq(acts)))
   /\ LET fs == Failures(TheCtx, body, TheAnn, outcome)
      IN  (Emit /\ fs # {}) =>
-           PrintT("DESIGN " \o ToJson([sib |-> sc.sib, order |-> DS, served |-> sc.served, others |-> SetToSeq(sc.others), c |-> sc.cell.c, sh |-> sc.cell.sh,
+           PrintT("DESIGN " \o ToJson([sib |-> sc.sib, order |-> DS, share |-> sc.share, served |-> sc.served, others |-> SetToSeq(sc.others), c |-> sc.cell.c, sh |-> sc.cell.sh,
                                        ct |-> body.ct, var |-> body.var, kind |-> outcome.kind, fails |-> SetToSeq(fs)]))
 
 Next == \/ SelectSignature \/ SelectHandler \/ LoadFails
@@ -157,6 +157,10 @@ MachineIsModel == Finished => outcome = ModelOutcome(Variant, D, DS, sc.sib, sc.
 SelectionsAgree == (sig # Unset /\ hdl # Unset) => sig = hdl
 \* ... and it is the response the documented priority names
 SelectionIsDocumented == (sig # Unset) => sig = PrimaryBy(DocOrder, D, DS)
+
+\* state constraint of the negative-control runs (variants sig201 / hdl201 / sigsorted / hdlfirst): one cell is enough to
+\* exhibit a disagreement of the two selection copies
+ControlCell == sc.cell = [c |-> "json", sh |-> "object"] /\ ~sc.sib /\ sc.share = "inline"
 
 \* the judge and the property as stated are the same predicate
 JudgeAgrees == Finished => (Holds(TheCtx, body, TheAnn, outcome) <=> Failures(TheCtx, body, TheAnn, outcome) = {})
